@@ -66,6 +66,18 @@ var units = []unit{
 	{File: "VerifyParams", Fns: []fnSpec{ // C11: validated range of the soft-rule parameters
 		{"src/params", "VerifyTxn", "Validate"},
 	}},
+	// loops over slices of structs (loops.go): the hour / coin sums of src/coin
+	{File: "CoinLoops", Imports: []string{"Mathutil", "CoinHours"}, Fns: []fnSpec{
+		{"src/coin", "Transaction", "OutputHours"},
+		{"src/coin", "UxArray", "Coins"},
+		{"src/coin", "UxArray", "CoinHours"},
+		{"src/coin", "", "VerifyTransactionCoinsSpending"},
+		{"src/coin", "", "VerifyTransactionHoursSpending"},
+	}},
+	{File: "FeeTxn", Imports: []string{"Mathutil", "Fee", "CoinHours", "CoinLoops"}, Fns: []fnSpec{
+		{"src/util/fee", "", "VerifyTransactionFee"},
+		{"src/util/fee", "", "TransactionFee"},
+	}},
 }
 
 const modPrefix = "github.com/skycoin/skycoin/"
@@ -104,6 +116,20 @@ type tr struct {
 	named  []string // named results (sanitised)
 	nres   int
 	resTy  []types.Type
+	// loops.go
+	finfo        map[string]*fnInfo // "pkgpath.Recv.Name" -> parameters of the Coq definition
+	slices       map[string]*sliceInfo
+	sliceOrder   []string
+	sliceParams  map[string]*types.Struct // parameters that are slices of structs -> element type
+	sliceParamTy map[string]types.Type
+	rootTy       map[string]*types.Struct
+	fieldInfo    map[string]pathRef
+	loop         *loopCtx
+	helpers      []string
+	fnName       string
+	nloops       int
+	loopMemo     map[*ast.RangeStmt]loopMemo
+	proj         map[string][][]string // second pass: element projection of each slice
 }
 
 func (t *tr) gensym(p string) string { t.fresh++; return fmt.Sprintf("%s_%d", p, t.fresh) }
@@ -263,14 +289,42 @@ func (t *tr) expr(e ast.Expr) ex {
 				}
 				fail(t.fset, e, "package-level variable %s", v.Name())
 			}
+			if t.loop != nil {
+				switch {
+				case v == t.loop.valObj:
+					fail(t.fset, e, "loop element %s used as a value", x.Name)
+				case v == t.loop.idxObj:
+					t.loop.idxUsed = true
+				case v.Pos() < t.loop.pos || v.Pos() >= t.loop.end:
+					if t.sliceParams[x.Name] != nil || t.roots[x.Name] {
+						fail(t.fset, e, "parameter %s used as a value in a loop", x.Name)
+					}
+					t.loop.use(san(x.Name), t.coqType(v.Type(), e))
+				}
+			}
+			if t.sliceParams[x.Name] != nil {
+				fail(t.fset, e, "slice parameter %s used as a value", x.Name)
+			}
 			return pure(san(x.Name))
 		}
 		fail(t.fset, e, "identifier %s", x.Name)
 	case *ast.SelectorExpr:
+		if root, rel, ok := t.pathOf(x); ok && (t.isElem(root) || t.sliceParams[root] != nil) {
+			return pure(t.usePath(root, rel, x))
+		}
 		if p, ok := t.fieldPath(x); ok {
+			if _, isSl := sliceOfStruct(t.info.TypeOf(x)); isSl {
+				fail(t.fset, e, "slice %s used as a value", p)
+			}
 			if !t.fseen[p] {
 				t.fseen[p] = true
 				t.fields = append(t.fields, p)
+				if root, rel, ok := t.pathOf(x); ok {
+					t.fieldInfo[p] = pathRef{root, rel}
+				}
+			}
+			if t.loop != nil {
+				t.loop.use(p, "Z")
 			}
 			return pure(p)
 		}
@@ -378,6 +432,9 @@ func (t *tr) binary(x *ast.BinaryExpr) ex {
 	cmp := map[token.Token]string{token.LSS: "<?", token.LEQ: "<=?", token.GTR: ">?", token.GEQ: ">=?", token.EQL: "=?"}
 	if op, ok := cmp[x.Op]; ok {
 		if t.isErrorType(t.info.TypeOf(x.X)) || isNil(x.Y) {
+			if x.Op == token.EQL && !isNil(x.Y) && !isNil(x.X) && (t.isSentinel(x.X) || t.isSentinel(x.Y)) {
+				return lift2(a, b, func(p, q string) string { return fmt.Sprintf("eqb_error %s %s", p, q) }, t)
+			}
 			if x.Op != token.EQL || !isNil(x.Y) {
 				fail(t.fset, x, "comparison of errors other than with nil")
 			}
@@ -388,6 +445,9 @@ func (t *tr) binary(x *ast.BinaryExpr) ex {
 	if x.Op == token.NEQ {
 		if isNil(x.Y) {
 			return lift1(a, func(s string) string { return "is_err " + s }, t)
+		}
+		if t.isErrorType(t.info.TypeOf(x.X)) && !isNil(x.X) && (t.isSentinel(x.X) || t.isSentinel(x.Y)) {
+			return lift2(a, b, func(p, q string) string { return fmt.Sprintf("negb (eqb_error %s %s)", p, q) }, t)
 		}
 		if _, _, ok := intInfo(t.info.TypeOf(x.X)); !ok {
 			fail(t.fset, x, "!= on non-integer")
@@ -470,6 +530,9 @@ func (t *tr) call(c *ast.CallExpr) ex {
 	if tv, ok := t.info.Types[c.Fun]; ok && tv.IsType() {
 		return t.convert(tv.Type, c.Args[0])
 	}
+	if r, ok := t.builtinLen(c); ok {
+		return r
+	}
 	var obj types.Object
 	switch f := c.Fun.(type) {
 	case *ast.Ident:
@@ -500,6 +563,9 @@ func (t *tr) call(c *ast.CallExpr) ex {
 	}
 	args := []string{}
 	sig := fn.Type().(*types.Signature)
+	if fi := t.finfo[key]; fi != nil && fi.Extended {
+		return t.callExt(c, fn, fi)
+	}
 	if sig.Recv() != nil {
 		fail(t.fset, c, "method call %s", full)
 	}
@@ -657,6 +723,9 @@ func (t *tr) stmts(list []ast.Stmt, rest string) string {
 			if t.nres == 0 {
 				return "Val tt"
 			}
+			if t.loop != nil {
+				fail(t.fset, x, "bare return inside a range loop")
+			}
 			return "Val " + tuple(t.named)
 		}
 		if len(x.Results) == 1 && t.nres > 1 {
@@ -710,7 +779,7 @@ func (t *tr) stmts(list []ast.Stmt, rest string) string {
 		if len(vs.Values) == 1 {
 			v = t.expr(vs.Values[0])
 		} else if t.isErrorType(t.info.TypeOf(vs.Names[0])) {
-			v = pure("None")
+			v = pure("(None : error)")
 		}
 		return letIn(san(vs.Names[0].Name), v)
 	case *ast.IncDecStmt:
@@ -822,7 +891,12 @@ func (t *tr) stmts(list []ast.Stmt, rest string) string {
 		}
 		return strings.Replace(body, "\x00C", c.code, 1)
 	case *ast.ForStmt:
+		if t.loop != nil {
+			fail(t.fset, x, "counted loop inside a range loop")
+		}
 		return t.forStmt(x, k)
+	case *ast.RangeStmt:
+		return t.rangeStmt(x, k)
 	}
 	fail(t.fset, s, "statement %T", s)
 	return ""
@@ -854,6 +928,7 @@ func (t *tr) forStmt(x *ast.ForStmt, k func() string) string {
 	if containsReturn(x.Body) || lo.mon || hi.mon {
 		fail(t.fset, x, "for-loop with return or panicking bound")
 	}
+	t.noJumps(x.Body, "counted loop")
 	vs := t.assigned(x.Body)
 	for _, v := range vs {
 		if v == san(kv) {
@@ -886,29 +961,68 @@ func (t *tr) forStmt(x *ast.ForStmt, k func() string) string {
 // ---------------------------------------------------------------- functions
 
 type fnOut struct {
-	Name   string
-	Params []string
-	Code   string
-	Src    string
-	Pos    string
+	Name    string
+	Params  []string
+	Code    string
+	Src     string
+	Pos     string
+	Info    *fnInfo  // typed parameters (loops.go)
+	Helpers []string // loop Fixpoints to emit before the definition
 }
 
+// function translates fd; when it has slice-of-struct parameters a first pass
+// discovers which element fields are used (the projection) and a second pass
+// produces the code.
 func (t *tr) function(fd *ast.FuncDecl, coqName string) fnOut {
+	t.proj = nil
+	o := t.function1(fd, coqName)
+	if len(t.sliceOrder) > 0 {
+		proj := map[string][][]string{}
+		for _, sn := range t.sliceOrder {
+			proj[sn] = t.slices[sn].projection()
+			if len(proj[sn]) == 0 {
+				fail(t.fset, fd, "no element field of slice %s is used", sn)
+			}
+		}
+		t.proj = proj
+		o = t.function1(fd, coqName)
+		for _, sn := range t.sliceOrder {
+			if !sameProj(proj[sn], t.slices[sn].projection()) {
+				fail(t.fset, fd, "internal: projection of %s changed between passes", sn)
+			}
+		}
+	}
+	return o
+}
+
+func (t *tr) function1(fd *ast.FuncDecl, coqName string) fnOut {
 	t.fields, t.fseen, t.roots, t.fresh = nil, map[string]bool{}, map[string]bool{}, 0
-	t.named, t.nres = nil, 0
+	t.named, t.nres, t.resTy = nil, 0, nil
+	t.slices, t.sliceOrder, t.sliceParams, t.sliceParamTy = map[string]*sliceInfo{}, nil, map[string]*types.Struct{}, map[string]types.Type{}
+	t.rootTy, t.fieldInfo, t.loop, t.helpers, t.fnName, t.nloops = map[string]*types.Struct{}, map[string]pathRef{}, nil, nil, coqName, 0
+	t.loopMemo = map[*ast.RangeStmt]loopMemo{}
 	params := []string{}
+	goParams := []string{}
 	addParams := func(fl *ast.FieldList, isRecv bool) {
 		if fl == nil {
 			return
 		}
 		for _, f := range fl.List {
 			for _, n := range f.Names {
+				goParams = append(goParams, n.Name)
 				ty := t.info.TypeOf(f.Type)
 				if p, ok := ty.(*types.Pointer); ok {
 					ty = p.Elem()
 				}
-				if _, ok := ty.Underlying().(*types.Struct); ok {
+				if st, ok := ty.Underlying().(*types.Struct); ok {
 					t.roots[n.Name] = true
+					t.rootTy[n.Name] = st
+					continue
+				}
+				if st, ok := sliceOfStruct(ty); ok {
+					t.sliceParams[n.Name] = st
+					t.sliceParamTy[n.Name] = ty
+					params = append(params, san(n.Name))
 					continue
 				}
 				if _, _, ok := intInfo(ty); !ok {
@@ -928,9 +1042,11 @@ func (t *tr) function(fd *ast.FuncDecl, coqName string) fnOut {
 			ty := t.info.TypeOf(f.Type)
 			if len(f.Names) == 0 {
 				t.nres++
+				t.resTy = append(t.resTy, ty)
 			}
 			for _, n := range f.Names {
 				t.nres++
+				t.resTy = append(t.resTy, ty)
 				t.named = append(t.named, san(n.Name))
 				z := "0"
 				if t.isErrorType(ty) {
@@ -953,7 +1069,41 @@ func (t *tr) function(fd *ast.FuncDecl, coqName string) fnOut {
 	all := append(append([]string{}, t.fields...), params...)
 	var src bytes.Buffer
 	printer.Fprint(&src, t.fset, fd)
-	return fnOut{Name: coqName, Params: all, Code: body, Src: src.String(), Pos: t.fset.Position(fd.Pos()).String()}
+	// typed description of the parameters (for callers, the comment and the manifest)
+	fi := &fnInfo{Name: coqName, GoParams: goParams, HasRecv: fd.Recv != nil && len(fd.Recv.List) == 1 && len(fd.Recv.List[0].Names) == 1}
+	for _, p := range t.fields {
+		ref := t.fieldInfo[p]
+		pi := paramInfo{Name: p, Type: "Z", Root: ref.root, Rel: ref.rel}
+		if sl := t.slices[p]; sl != nil {
+			pi.Slice, pi.Type, pi.GoTy = true, t.sliceCoqType(p), sl.goTy
+			if t.proj != nil {
+				pi.Proj = t.proj[p]
+			}
+		}
+		fi.Params = append(fi.Params, pi)
+		fi.Extended = true
+	}
+	for _, p := range params {
+		pi := paramInfo{Name: p, Type: "Z", Root: p}
+		for _, g := range goParams {
+			if san(g) == p {
+				pi.Root = g
+			}
+		}
+		if t.sliceParams[pi.Root] != nil {
+			sl := t.slices[pi.Root]
+			if sl == nil {
+				fail(t.fset, fd, "slice parameter %s is never used", pi.Root)
+			}
+			pi.Slice, pi.Type, pi.GoTy = true, t.sliceCoqType(pi.Root), sl.goTy
+			if t.proj != nil {
+				pi.Proj = t.proj[pi.Root]
+			}
+			fi.Extended = true
+		}
+		fi.Params = append(fi.Params, pi)
+	}
+	return fnOut{Name: coqName, Params: all, Code: body, Src: src.String(), Pos: t.fset.Position(fd.Pos()).String(), Info: fi, Helpers: t.helpers}
 }
 
 func findFunc(p *packages.Package, recv, name string) *ast.FuncDecl {
@@ -994,6 +1144,8 @@ type manifestEntry struct {
 	File   string `json:"file"`
 	Pos    string `json:"pos"`
 	SrcSHA string `json:"src_sha256"`
+	// only for functions with list parameters: how to build each argument
+	Params []manifestParam `json:"params,omitempty"`
 }
 
 func loadPkgs(repo string, pats []string) ([]*packages.Package, error) {
@@ -1073,6 +1225,7 @@ func main() {
 		byPath[p.PkgPath] = p
 	}
 	known := map[string]string{}
+	finfo := map[string]*fnInfo{}
 	var man []manifestEntry
 	for _, u := range units {
 		if !all && !want[u.File] {
@@ -1095,20 +1248,34 @@ func main() {
 				fmt.Fprintf(os.Stderr, "TRANSLATION-BREAK: function %s.%s.%s not found\n", f.Pkg, f.Recv, f.Name)
 				os.Exit(3)
 			}
-			t := &tr{fset: p.Fset, pkg: p, info: p.TypesInfo, known: known}
+			t := &tr{fset: p.Fset, pkg: p, info: p.TypesInfo, known: known, finfo: finfo}
 			coqName := f.Name
 			if f.Recv != "" {
 				coqName = f.Recv + "_" + f.Name
 			}
 			o := t.function(fd, coqName)
 			known[modPrefix+f.Pkg+"."+f.Recv+"."+f.Name] = coqName
+			finfo[modPrefix+f.Pkg+"."+f.Recv+"."+f.Name] = o.Info
 			fmt.Fprintf(&b, "(* %s\n%s\n*)\n", strings.TrimPrefix(o.Pos, *repo+"/"), strings.ReplaceAll(strings.ReplaceAll(o.Src, "*)", "* )"), "(*", "( *"))
 			ps := ""
 			if len(o.Params) > 0 {
 				ps = " (" + strings.Join(o.Params, " ") + " : Z)"
 			}
+			doc, mparams := paramDoc(coqName, o.Info.Params)
+			if mparams != nil {
+				// list parameters: typed binders, the projection in a comment, the loops first
+				names, tys := []string{}, []string{}
+				for _, pi := range o.Info.Params {
+					names, tys = append(names, pi.Name), append(tys, pi.Type)
+				}
+				ps = typedBinders(names, tys)
+				b.WriteString(doc)
+			}
+			for _, h := range o.Helpers {
+				b.WriteString(h)
+			}
 			fmt.Fprintf(&b, "Definition %s%s :=\n  %s.\n\n", coqName, ps, indent(o.Code, "  "))
-			man = append(man, manifestEntry{Coq: "Gen." + u.File + "." + coqName, File: strings.TrimPrefix(o.Pos, *repo+"/"), Pos: o.Pos, SrcSHA: fmt.Sprintf("%x", sha256.Sum256([]byte(o.Src)))})
+			man = append(man, manifestEntry{Coq: "Gen." + u.File + "." + coqName, File: strings.TrimPrefix(o.Pos, *repo+"/"), Pos: o.Pos, SrcSHA: fmt.Sprintf("%x", sha256.Sum256([]byte(o.Src))), Params: mparams})
 		}
 		ch, err := writeIfChanged(filepath.Join(*out, u.File+".v"), []byte(b.String()))
 		if err != nil {
